@@ -3713,11 +3713,28 @@ class MapIndexAlign(MapAlign):
 
 class OpAlignPartitions(MaybeAlignPartitions):
     _parameters = ["frame", "other", "op"]
-    _projection_passthrough = True
 
     @functools.cached_property
     def _meta(self):
         return getattr(self.frame._meta, self.op)(self.other._meta)
+
+    def _simplify_up(self, parent, dependents):
+        if isinstance(parent, Projection):
+            # project both operands; the outer projection stays in place
+            columns = determine_column_projection(self, parent, dependents)
+            columns = _convert_to_list(columns)
+            substitutions = {}
+            for param in ("frame", "other"):
+                operand = self.operand(param)
+                if isinstance(operand, Expr) and operand.ndim > 1:
+                    cols = [col for col in operand.columns if col in columns]
+                    if cols != operand.columns:
+                        substitutions[param] = operand[cols]
+            if not substitutions:
+                return
+            return type(parent)(
+                self.substitute_parameters(substitutions), *parent.operands[1:]
+            )
 
     def _lower(self):
         # This can be expensive when something that has expensive division
